@@ -248,21 +248,35 @@ def _rest_of_r163(ctx: Ctx, model, shapes) -> None:
     # the internal map is the inverse of running identifiers
     ctx.instance("R16.3", "_extract_parameters: internal ids are the running identifiers inverted")
     inv = [n for n in walk_ordered(ep.node) if isinstance(n, (ast.Assign, ast.AnnAssign)) and norm(n.targets[0] if isinstance(n, ast.Assign) else n.target) == "internal_identifiers"]
-    if inv and isinstance(inv[0].value, ast.DictComp) and norm(inv[0].value.key) == "v" and norm(inv[0].value.value) == "k" \
-            and "generate_element_identifiers(running=True).items()" in norm(inv[0].value.generators[0].iter):
+    # two idioms: the running map inverted ({id: element}) and iterated as (id, element), or iterated directly as (element, id)
+    loop_ie = [n for n in walk_ordered(ep.node) if isinstance(n, ast.For) and norm(n.iter) == "internal_identifiers.items()"]
+    inverted = bool(inv) and isinstance(inv[0].value, ast.DictComp) and norm(inv[0].value.key) == "v" and norm(inv[0].value.value) == "k" \
+        and "generate_element_identifiers(running=True).items()" in norm(inv[0].value.generators[0].iter) \
+        and len(loop_ie) == 1 and norm(loop_ie[0].target).strip("()") == "internal_id, element"
+    direct = bool(inv) and norm(inv[0].value).replace(" ", "").replace("\n", "") == "circuit.generate_element_identifiers(running=True)" \
+        and len(loop_ie) == 1 and norm(loop_ie[0].target).strip("()") == "element, internal_id"
+    if inverted or direct:
         ctx.ok()
     else:
         ctx.violation("R16.3", "_extract_parameters:internal-map", FIT, ep.node, "internal identifiers must be {id: element} of generate_element_identifiers(running=True)")
-    # element-name rule equals get_element_name
+    # element-name rule equals get_element_name: either by calling it with the display identifiers, or by the same inline rule
     gen = model.fi(BASE, "Connection.get_element_name")
     g_ret = [fshape(n.value) for n in walk_ordered(gen.node) if isinstance(n, ast.Return) and isinstance(n.value, ast.JoinedStr)]
     e_asg = [fshape(n.value) for n in walk_ordered(ep.node) if isinstance(n, ast.Assign) and norm(n.targets[0]) == "element_name" and isinstance(n.value, ast.JoinedStr)]
-    ctx.instance("R16.3", f"element-name rule: get_element_name {g_ret} vs _extract_parameters {e_asg}")
+    by_call = [n for n in walk_ordered(ep.node) if isinstance(n, (ast.Assign, ast.AnnAssign)) and n.value is not None and norm(n.targets[0] if isinstance(n, ast.Assign) else n.target) == "element_name"
+               and isinstance(n.value, ast.Call) and isinstance(n.value.func, ast.Attribute) and n.value.func.attr == "get_element_name"]
+    ctx.instance("R16.3", f"element-name rule: get_element_name {g_ret} vs _extract_parameters {e_asg or 'call'}")
     def canon(sh):
         return [p.replace("external_identifiers", "identifiers") for p in sh]
     same_rule = len(g_ret) == 1 and len(e_asg) == 1 and canon(g_ret[0]) == canon(e_asg[0]) \
         and "name != symbol" in norm(gen.node) and "element_name == symbol" in norm(ep.node) \
         and "element.get_name()" in norm(gen.node) and "element.get_name()" in norm(ep.node)
+    if by_call and not e_asg:
+        c_ = by_call[0].value
+        kw_ = {k.arg: norm(k.value) for k in c_.keywords}
+        same_rule = len(by_call) == 1 and norm(c_.func.value) == "circuit" and c_.args and norm(c_.args[0]) == "element" and kw_.get("identifiers") == "external_identifiers" \
+            and any(isinstance(n, (ast.Assign, ast.AnnAssign)) and n.value is not None and norm(n.targets[0] if isinstance(n, ast.Assign) else n.target) == "external_identifiers"
+                    and norm(n.value).replace(" ", "").replace("\n", "") == "circuit.generate_element_identifiers(running=False)" for n in walk_ordered(ep.node))
     if same_rule:
         ctx.ok()
     else:
@@ -422,16 +436,49 @@ def _numbering(ctx: Ctx, model, found, shapes) -> None:
     else:
         ctx.violation("R16.4", "_get_elements_recursive:traversal", BASE, ger.node, "the traversal must visit each element once and descend into container sub-circuits")
     gei = model.fi(BASE, "Connection.generate_element_identifiers")
-    ctx.instance("R16.4", "running identifiers = enumerate(traversal)")
-    rets = [n for n in walk_ordered(gei.node) if isinstance(n, ast.Return) and isinstance(n.value, ast.DictComp)]
-    ok = len(rets) == 1 and norm(rets[0].value.key) == "element" and norm(rets[0].value.value) == "i" \
-        and norm(rets[0].value.generators[0].iter) == "enumerate(self._get_elements_recursive())" \
-        and isinstance(parent(rets[0]), ast.If) and norm(parent(rets[0]).test) == "running"
-    if ok:
+    # interpreted (AST, sa.miniinterp) on every sequence of element symbols over {R, C} of length 0..4 and both flags: the
+    # function depends on its elements only through the order of the traversal and the equality pattern of their symbols
+    from itertools import product
+    from ..miniinterp import InterpRaise, Mini, Obj, module_globals
+
+    class _El:
+        def __init__(self, sym, k):
+            self.sym, self.k = sym, k
+
+        def get_symbol(self):
+            return self.sym
+
+        def __repr__(self):
+            return f"{self.sym}#{self.k}"
+    stubs = module_globals(ctx.repo.modules[BASE].tree, {"_is_boolean": lambda x: isinstance(x, bool)})
+    wit = None
+    n_w = 0
+    for n_ in range(0, 5):
+        for syms in product("RC", repeat=n_):
+            els = [_El(s_, i) for i, s_ in enumerate(syms)]
+            for running in (True, False):
+                n_w += 1
+                me = Obj(Mini(stubs), {}, {"_get_elements_recursive": (lambda els=els: list(els))})
+                try:
+                    got = Mini(stubs).call_function(gei.node, {"self": me, "running": running})
+                    got = {repr(k): v for k, v in got.items()}
+                except InterpRaise as e:
+                    got = e.kind
+                seen_: Dict[str, int] = {}
+                want = {}
+                for i, e_ in enumerate(els):
+                    seen_[e_.sym] = seen_.get(e_.sym, 0) + 1
+                    want[repr(e_)] = i if running else seen_[e_.sym]
+                if got != want and wit is None:
+                    wit = ("".join(syms), running, got, want)
+    ctx.instance("R16.4", f"Connection.generate_element_identifiers on {n_w} (symbol sequence, running) inputs: running ids 0..N-1 in traversal order, per-type counts from 1")
+    if wit is None:
         ctx.ok()
     else:
-        ctx.violation("R16.4", "generate_element_identifiers:running", BASE, gei.node, "running identifiers must be {element: i} over enumerate(self._get_elements_recursive()) when running is true")
-    for qual in ("Connection.generate_element_identifiers", "Container.generate_element_identifiers"):
+        key = "generate_element_identifiers:running" if wit[1] else "Connection.generate_element_identifiers:counts"
+        ctx.violation("R16.4", key, BASE, gei.node,
+                      f"Connection.generate_element_identifiers(running={wit[1]}) on elements {wit[0]!r} gives {wit[2]} instead of {wit[3]}")
+    for qual in ("Container.generate_element_identifiers",):
         fi = model.fi(BASE, qual)
         ctx.instance("R16.4", f"{qual}: per-type counts start at 1")
         # fold summary of the counter: i = counts[symbol] + 1; counts[symbol] = i; identifiers[element] = i; counts initialised to 0
